@@ -183,3 +183,11 @@ package service
 //@   loop 1:
 //@     modifies elems(strMatchers)
 //@     step every-matcher-is-rendered-by-the-library: strMatchers[rangeindex] == matchers[rangeindex].String()
+
+// The label lookup of a select covers the select's own window: it is created with the
+// window start as its lower and the window end as its upper date.
+//@ pure github\.com/metrico/qryn/reader/plugins\.Get.*
+//@ func newLabelsGetter [C13,C17]
+//@   flag checks=-index,-assert
+//@   modifies nothing
+//@   ensures lookup-window-is-the-select-window: result.DateFrom == from && result.DateTo == to
